@@ -7,12 +7,28 @@ use super::{ActorHandle, JoinFuture, Spawner};
 #[derive(Copy, Clone, Debug, Default)]
 pub struct SmolSpawner;
 
+/// A `smol::Task` cancels its future when it is dropped, whereas the join handles of tokio and
+/// async-std detach. Wrapped like this, an actor whose handle is dropped without being joined
+/// (a dropped `OwningAddr`, a builder terminal that does not keep the handle) keeps running on
+/// smol as it does on the other runtimes.
+struct DetachOnDrop<T>(Option<smol::Task<T>>);
+
+impl<T> Drop for DetachOnDrop<T> {
+    fn drop(&mut self) {
+        if let Some(task) = self.0.take() {
+            task.detach();
+        }
+    }
+}
+
 impl<A: Actor> Spawner<A> for SmolSpawner {
     fn spawn_actor<F>(future: F) -> super::ActorHandle<A>
     where
         F: Future<Output = crate::DynResult<A>> + Send + 'static,
     {
-        let handle = Arc::new(async_lock::Mutex::new(Some(smol::spawn(future))));
+        let handle = Arc::new(async_lock::Mutex::new(Some(DetachOnDrop(Some(
+            smol::spawn(future),
+        )))));
         log::trace!("spawning smol task");
 
         let detach_handle = Arc::clone(&handle);
@@ -21,12 +37,20 @@ impl<A: Actor> Spawner<A> for SmolSpawner {
             log::trace!("joining smol task");
             let handle = Arc::clone(&handle);
             Box::pin(async move {
-                let mut handle: Option<smol::Task<DynResult<A>>> = handle.lock().await.take();
+                let mut handle: Option<DetachOnDrop<DynResult<A>>> = handle.lock().await.take();
 
-                if let Some(handle) = handle.take() {
+                if let Some(mut handle) = handle.take() {
                     // TODO: don't eat the error
 
-                    let actor = handle.await.ok();
+                    // await the task in place: if this join future is dropped half way the
+                    // wrapper still detaches the task instead of cancelling the actor
+                    let actor = match handle.0.as_mut() {
+                        Some(task) => std::future::poll_fn(|cx| std::pin::Pin::new(&mut *task).poll(cx))
+                            .await
+                            .ok(),
+                        None => None,
+                    };
+                    handle.0 = None;
                     log::trace!("smol task completed");
                     actor
                 } else {
@@ -37,10 +61,8 @@ impl<A: Actor> Spawner<A> for SmolSpawner {
         })
         .with_detach_fn(move || {
             log::trace!("detaching smol task");
-            let mut handle = detach_handle.lock_blocking().take();
-            if let Some(handle) = handle.take() {
-                handle.detach();
-            }
+            // dropping the wrapper detaches the task
+            drop(detach_handle.lock_blocking().take());
         })
     }
 
